@@ -132,10 +132,25 @@ def build_all(log):
         rc, out = sh(["coq_makefile", "-f", "_CoqProject", "-o", "Makefile"] + files, cwd=COQ)
         rc, out = sh("timeout 3000 make -k -j16 2>&1", cwd=COQ)
         res["log"] += out[-20000:]
-        failed = []
-        for f in files:
-            if not os.path.exists(os.path.join(COQ, f + "o")):
-                failed.append(f)
+        # files whose compilation failed in this make, and everything that depends on one of them
+        # (their stale .vo from an earlier build must not count as a checked proof)
+        direct = set(m + ".v" for m in re.findall(r"\*\*\* \[Makefile[^\]]*?:\s*(\S+?)\.vo\] Error", out))
+        graph = dep_graph()
+        failed = set(f for f in files if not os.path.exists(os.path.join(COQ, f + "o"))) | direct
+        changed = True
+        while changed:
+            changed = False
+            for f in files:
+                if f not in failed and any(d in failed for d in graph.get(f, [])):
+                    failed.add(f)
+                    changed = True
+        for f in failed:
+            for ext in ("o", "ok", "os"):
+                try:
+                    os.remove(os.path.join(COQ, f + ext))
+                except OSError:
+                    pass
+        failed = sorted(failed)
         res["coq_failed"] = failed
         res["coq_errors"] = "\n".join(l for l in out.splitlines() if l.startswith("File ") or l.startswith("Error"))[-3000:]
         # 3. extraction + OCaml (model files contain no proofs, so this works when a proof breaks)
@@ -169,8 +184,8 @@ def build_all(log):
 HYGIENE = re.compile(r"\b(Admitted|admit|Axiom|Parameter|Conjecture|Admit Obligations)\b|Unset Guard|bypass_check|type-in-type|impredicative-set|Unset Positivity|Unset Universe")
 
 
-def dep_closure(vfile):
-    """project-local dependency closure of a .v file (paths relative to coq/)"""
+def dep_graph():
+    """direct project-local dependencies of every .v file (paths relative to coq/), from coqdep's output"""
     deps_file = os.path.join(COQ, ".Makefile.d")
     graph = {}
     if os.path.exists(deps_file):
@@ -183,6 +198,12 @@ def dep_closure(vfile):
                 continue
             src = tg[0][:-1]
             graph[src] = [d[:-1] for d in rhs.split() if d.endswith(".vo") and not d.startswith("/")]
+    return graph
+
+
+def dep_closure(vfile):
+    """project-local dependency closure of a .v file (paths relative to coq/)"""
+    graph = dep_graph()
     seen, todo = set(), [vfile]
     while todo:
         f = todo.pop()
